@@ -621,3 +621,19 @@ Proof.
   apply udp_receive_first; auto.
   rewrite G. unfold udp_wire_query. apply put_id_get_id. exact Q.
 Qed.
+
+(** * Any number of idle connections that died (and were seen to die) is harmless *)
+
+Lemma reuse_dead_idle_answered k f q :
+  reuse_dead_idle k f q = (Reply (f q), mkEff true 1 [q]).
+Proof.
+  unfold reuse_dead_idle, idle_after_noticed_deaths. rewrite Nat.sub_diag.
+  rewrite reuse_stale_answered; [reflexivity|]. cbn. lia.
+Qed.
+
+Lemma fallback_over_dead_idle_conns q r k f :
+  msg_truncated r = Some true ->
+  udp_with_fallback q (Reply r) (fun q' => fst (reuse_dead_idle k f q')) = (RReply (f q), [q]).
+Proof.
+  intro E. rewrite (result_is_tcp_reply_when_tc _ _ _ E), reuse_dead_idle_answered. reflexivity.
+Qed.
